@@ -27,7 +27,7 @@ def rot(k):
 
 def gen(ctx):
     rng = ctx.rng
-    dts = ["int64", "uint8", "int8", "int32", "list"]
+    dts = ["int64", "uint8", "int8", "int32", "list", "masked", "masked_uint8"]
     for loop, (_, m) in LOOPS.items():
         for c in range(m):
             yield dict(kind="batch", loop=loop, c=c, m=m)
@@ -99,7 +99,11 @@ def loop_obj(name):
 def call_loop(obj, key, dtype=None):
     c, t, r, b, l = key
     n = [[0, t, 0], [l, c, r], [0, b, 0]]
-    if dtype != "list":
+    if dtype in ("masked", "masked_uint8"):
+        # what evolve2d(..., neighbourhood='von Neumann') hands a rule: corners masked (and holding arbitrary data)
+        data = np.array([[7, t, 5], [l, c, r], [8, b, 3]], dtype="uint8" if dtype == "masked_uint8" else "int64")
+        n = np.ma.masked_array(data, [[1, 0, 1], [0, 0, 0], [1, 0, 1]])
+    elif dtype != "list":
         n = np.array(n, dtype=dtype or "int64")
     try:
         v = obj(n, (1, 1), 1)
